@@ -142,6 +142,12 @@ pub fn public(args: &Args) {
                       "fresh": prev.is_none(), "history": [], "history_keys": [], "root_key": "", "history_len_before": 0, "entries_before": 0,
                       "cancel_at": -1, "tag": st["tag"].as_str().unwrap_or(""), "api": "public", "stop_after_ms": stop_ms.map(|c| c as i64).unwrap_or(-1), "drop_receiver": drop_rx}));
         out.flush();
+        // an unrelated, unbounded analysis running in the same process while this search runs (searches share nothing)
+        let background = st["background"].as_str().map(|f| {
+            let b = Searcher::new().analyze(state_of_fen(f), 99, Evaluator::default(), None, None);
+            std::thread::sleep(std::time::Duration::from_millis(30));
+            b
+        });
         let t0 = Instant::now();
         let _ = verif::take_shallow_workers_max();
         let (handle, tx, rx) = Searcher::new().analyze(state, seed, Evaluator::default(), depth, prev);
@@ -158,6 +164,11 @@ pub fn public(args: &Args) {
         if let Some(rx) = rx { while let Ok(e) = rx.try_recv() { out.ev(status_event_json(&e)); } }
         // a late Stop after completion must be harmless
         let _ = tx.send(ControlEvent::Stop);
+        if let Some((bh, btx, brx)) = background {
+            let _ = btx.send(ControlEvent::Stop);
+            let _ = bh.join();
+            drop(brx);
+        }
         n += 1;
         match res {
             Ok(a) => {
